@@ -141,6 +141,15 @@ CHECKS["C06"] = dict(
     ref="DESIGN.md 4/C06",
     note=NOTE_COMMON + "Outside: round shapes under non-similarity transforms (C02 finding), Path(shape.d()) and bbox/length for curved shapes (C05/C08/C15), negative radii.")
 
+CHECKS["C07"] = dict(
+    text="Real Path.svg_d / per-segment d() / Point.__str__ followed by the real parser, numbers crossing the text as tags: source paths (parsed from skeleton data and, "
+         "independently, built from segment objects by the specification interpreter) for every 2-command sequence over the 18 non-arc letters, smooth chains, multiple "
+         "subpaths, closes, subpaths without a move and segment-completing z, printed with relative x smooth in {None, False, True}^2 via Path.d, str() and "
+         "Subpath.d; proved: same count/kinds, every stored point equal (1e-9), second generation a fixed point. Arcs: native arcs with symbolic centre, radii, "
+         "rotation, sweep printed absolute/relative and re-read: radii, rotation direction, end points and both flags (all four combinations as solver paths).",
+    ref="DESIGN.md 4/C07",
+    note=NOTE_COMMON + "Arc re-read uses the argument recorder (that those arguments give back the same centre/sweep is C05). Outside: the 12-digit / 6-digit (%G) formatting itself.")
+
 NOT_APPLICABLE = {
 }
 
